@@ -2347,7 +2347,12 @@ func (p *Peer) PassThroughQuery(ctx context.Context, res *Response, passthroughR
 			}
 			for j := range req.Stats {
 				val := interface2float64(row[numCol+j])
-				res.request.StatsResult.Stats[key][j].ApplyValue(val, 1)
+				count := 1
+				if req.Stats[j].statsType == Counter {
+					// the backend counted already, add its number instead of one per backend
+					count = int(val)
+				}
+				res.request.StatsResult.Stats[key][j].ApplyValue(val, count)
 			}
 		}
 	}
